@@ -438,7 +438,7 @@ def run(ctx):
     from mc import firstuse, pairs  # noqa: PLC0415
 
     # first use in a process before anything else touches the library (the workers must be pristine)
-    fu_ops = [["enc", pair_ops.LEAVES[0]], ["dec", pair_ops.LEAVES[0], "ANYVALUE"], ["dec", pair_ops.TREES[1], "ANYVALUE"]]
+    fu_ops = [["enc", pair_ops.LEAVES[0]], ["dec", pair_ops.TREES[1], "ANYVALUE"]] + ([["dec", pair_ops.LEAVES[0], "ANYVALUE"]] if ctx.thorough else [])  # one forked child per execution (~16 executions/s): two operations in the quick tier
     firstuse.run_part(ctx, fu_ops, "C01", 2 if ctx.thorough else 1)
     ops = [["enc", d] for d in pair_ops.LEAVES + pair_ops.TREES[:1]]
     pair_execs = pairs.run_part(ctx, ops, "C01", 2 if ctx.thorough else 1)
